@@ -129,14 +129,26 @@ def inline_round(ctx, requests=()):
             if _np(root) in req or _np(caller.path) in req:
                 in_request.add(k)
     direct |= in_request
-    cands = inline.candidates(f, (set(pins) - direct) | hard, allow_pub=direct)
-    cands = {k: site for k, site in cands.items() if site[0] in bearing}
+    # a requested helper with two or three callers (a delegate shared by the two entry points) gets one copy per caller
+    multi = set()
+    if req:
+        sites_all, _r = inline.static_call_sites(f)
+        for k, ss in sites_all.items():
+            if k in hard or not (2 <= len(ss) <= 3):
+                continue
+            cs = [f.mir.get(c) for c, _b in ss]
+            if all(c is not None and (_np(c.j.get("root") or c.path) in req or _np(c.path) in req or c.key in pins) for c in cs):
+                if any(_np(c.j.get("root") or c.path) in req or _np(c.path) in req for c in cs):
+                    multi.add(k)
+    direct |= multi
+    cands = inline.candidates(f, (set(pins) - direct) | hard, allow_pub=direct, multi=multi)
+    cands = {k: site for k, site in cands.items() if (site[0] in bearing if not isinstance(site, list) else all(c in bearing for c, _b in site))}
     if not cands:
         return f, []
     # demand-driven: when the failed resolvers said what they were looking for, only the helpers that (transitively, through other
     # unpinned helpers) contain it are inlined in this round; without hints every candidate goes in
     if not hints and in_request:
-        req_c = {k: site for k, site in cands.items() if k in in_request}
+        req_c = {k: site for k, site in cands.items() if k in in_request or k in multi}
         if req_c:
             cands = req_c
     if hints:
@@ -156,7 +168,7 @@ def inline_round(ctx, requests=()):
         chosen = {k: site for k, site in cands.items() if matches(f.mir[k])}
         if not chosen:
             # nothing contains what the resolvers asked for: fall back to the private stages of the functions the failed rules name
-            chosen = {k: site for k, site in cands.items() if k in in_request}
+            chosen = {k: site for k, site in cands.items() if k in in_request or k in multi}
         # hints that no helper satisfies: what was lost is not hidden in an extracted helper, inlining would only blur the roles
         cands = chosen
         if not cands:
